@@ -81,7 +81,9 @@ def run_tlc(workdir, module, cfg_text, workers=4, timeout=1800, extra=(), java_o
             shutil.copy(os.path.join(TLA, f), workdir)
     with open(os.path.join(workdir, module + ".cfg"), "w") as f:
         f.write(cfg_text)
-    cmd = ["java"] + java_opts.split() + ["-XX:+UseParallelGC", "-cp",
+    jtmp = os.path.join(workdir, "jtmp")    # TLC leaves a tlc-* directory per run in java.io.tmpdir
+    os.makedirs(jtmp, exist_ok=True)
+    cmd = ["java"] + java_opts.split() + ["-XX:+UseParallelGC", "-Djava.io.tmpdir=" + jtmp, "-cp",
            "/opt/veriftools/tla/tla2tools.jar:/opt/veriftools/tla/CommunityModules-deps.jar", "tlc2.TLC",
            "-workers", str(workers), "-metadir", os.path.join(workdir, "meta"), "-noGenerateSpecTE"]
     if simulate:
@@ -103,8 +105,11 @@ def run_apalache(workdir, module_file, init, inv, length, timeout=600, extra=())
     cmd = ["apalache-mc", "check", "--init=" + init, "--inv=" + inv, "--length=%d" % length,
            "--out-dir=" + os.path.join(workdir, "_apalache-out"), "--run-dir=" + os.path.join(workdir, "_run")] + list(extra) + [module_file]
     try:
+        jtmp = os.path.join(workdir, "jtmp")
+        os.makedirs(jtmp, exist_ok=True)
         p = subprocess.run(cmd, cwd=workdir, stdout=subprocess.PIPE, stderr=subprocess.STDOUT, timeout=timeout,
-                           env=dict(os.environ, JAVA_TOOL_OPTIONS=""))
+                           env=dict(os.environ, JAVA_TOOL_OPTIONS="", JVM_ARGS="-Djava.io.tmpdir=" + jtmp,
+                                    TMPDIR=jtmp))
     except (subprocess.TimeoutExpired, FileNotFoundError) as e:
         raise ToolFailure("apalache-mc did not complete on %s: %s" % (module_file, e))
     out = p.stdout.decode("utf-8", "replace")
